@@ -162,6 +162,38 @@ func Load(lc LoadConfig) (*Prog, error) {
 		p.ModFuncs = append(p.ModFuncs, f)
 	}
 	sort.Slice(p.ModFuncs, func(i, j int) bool { return p.FuncKey(p.ModFuncs[i]) < p.FuncKey(p.ModFuncs[j]) })
+	// named functions used as values (method values, table entries, arguments): go/ssa keeps referrers only for
+	// anonymous functions, so record these uses here
+	namedValueUses = map[*ssa.Function]int{}
+	for f := range all {
+		if f.Blocks == nil {
+			continue
+		}
+		for _, b := range f.Blocks {
+			for _, in := range b.Instrs {
+				var callee ssa.Value
+				if ci, ok := in.(ssa.CallInstruction); ok {
+					callee = ci.Common().Value
+				}
+				for _, op := range in.Operands(nil) {
+					if op == nil || *op == nil {
+						continue
+					}
+					fn, ok := (*op).(*ssa.Function)
+					if !ok {
+						continue
+					}
+					if *op == callee && f.Synthetic == "" {
+						continue // plain call position
+					}
+					if f.Synthetic != "" {
+						continue // a wrapper calling its target: counted where the wrapper itself is used
+					}
+					namedValueUses[p.unthunk(fn)]++
+				}
+			}
+		}
+	}
 	if len(p.ModFuncs) < 100 {
 		return nil, fmt.Errorf("only %d module functions found", len(p.ModFuncs))
 	}
